@@ -1,9 +1,11 @@
 package props
 
 import (
+	"fmt"
 	"go/ast"
 	"go/token"
 	"go/types"
+	"os"
 	"regexp/syntax"
 	"strings"
 
@@ -724,6 +726,89 @@ func runC20(c *core.Ctx) {
 		for _, k := range keep {
 			o.Require(k >= need-1, "only %d bytes are kept across a refill; a header of %d bytes (\\r\\n%d 65535 obj) that straddles the boundary needs %d", k, need, maxNum, need-1)
 		}
+	})
+	c.Check("C20-R4", "pdf.(*scanner)/search-keeps-overlap", "every search routine of the scanner that is used by library code and reads on when its pattern is not in the buffer keeps an overlap: it does not move the position to the fill level before the refill (a pattern that straddles the refill boundary would be missed: an endstream, and with it a complete stream)", func(o *core.Ob) {
+		pkg := c.Prog.Pkg("pdf")
+		// functions of package pdf that are called from non-test code of the package
+		used := map[*types.Func]bool{}
+		for _, fn := range c.Prog.Funcs(pkg) {
+			if fn.Decl.Body == nil || c.Prog.IsTestFile(fn.Decl.Pos()) {
+				continue
+			}
+			for _, cs := range core.CallsIn(fn.Info(), fn.Decl.Body, true) {
+				if cs.Fn != nil {
+					used[cs.Fn.Origin()] = true
+				}
+			}
+		}
+		n := 0
+		for _, fn := range c.Prog.Funcs(pkg) {
+			if fn.Decl.Body == nil || fn.Decl.Recv == nil || c.Prog.IsTestFile(fn.Decl.Pos()) || !strings.HasPrefix(fn.Key, "pdf.(*scanner).") {
+				continue
+			}
+			info := fn.Info()
+			g := fn.Graph()
+			refills := callVertices(g, "pdf.(*scanner).refill")
+			var searches []*core.V
+			for _, v := range g.Vs {
+				if v.AST == nil {
+					continue
+				}
+				for _, cs := range core.CallsIn(info, v.AST, false) {
+					switch {
+					case strings.HasPrefix(cs.Key, "bytes.Index"), strings.HasPrefix(cs.Key, "bytes.Contains"),
+						strings.Contains(cs.Key, "Regexp).Find"), strings.Contains(cs.Key, "Regexp).Match"):
+						searches = append(searches, v)
+					}
+				}
+			}
+			if os.Getenv("PDFVERIF_DEBUG_C20") != "" {
+				fmt.Fprintf(os.Stderr, "%s refills=%d searches=%d\n", fn.Key, len(refills), len(searches))
+			}
+			if len(refills) == 0 || len(searches) == 0 {
+				continue
+			}
+			// only searches that are repeated after a refill
+			looping := false
+			for _, sv := range searches {
+				for _, rv := range refills {
+					if g.PathExists(sv, rv.V, nil) && g.PathExists(rv.V, sv, nil) {
+						looping = true
+					}
+				}
+			}
+			if !looping {
+				continue
+			}
+			if !used[fn.Obj.Origin()] {
+				o.Fact("%s is not called from library code: not checked", fn.Key)
+				continue
+			}
+			n++
+			o.At(fn.Site(fn.Decl, "search routine"))
+			for _, v := range g.Vs {
+				as, ok := v.AST.(*ast.AssignStmt)
+				if !ok || len(as.Lhs) != 1 || len(as.Rhs) != 1 || as.Tok != token.ASSIGN {
+					continue
+				}
+				if _, name, ok := selName(as.Lhs[0]); !ok || name != "pos" {
+					continue
+				}
+				if _, name, ok := selName(ast.Unparen(as.Rhs[0])); !ok || name != "used" {
+					continue
+				}
+				// between a failed search and the refill?
+				for _, sv := range searches {
+					for _, rv := range refills {
+						if g.PathExists(sv, v, core.AvoidVs(rv.V)) && g.PathExists(v, rv.V, nil) {
+							o.FailAt(fn.Site(as, ""), "%s moves the position to the fill level before it refills: nothing of what was searched is kept, and a pattern that straddles the refill boundary is not found (the caller then misses the marker: a complete stream whose endstream lies across a buffer boundary is given up)", fn.Key)
+						}
+					}
+				}
+			}
+		}
+		o.Shape(n >= 1, "no search routine of the scanner (a search in the buffer repeated after a refill) is used by library code")
+		o.Count(n)
 	})
 	c.Check("C20-R2", "pdf.(*scanner).Find/eof", "the marker search reports end of input only when a refill brought no new bytes (the fill level sampled before and after the refill is equal): every byte that arrives is searched before EOF is reported, also a short tail behind the overlap region", func(o *core.Ob) {
 		fn := c.Prog.Func("pdf", "(*scanner).Find")
